@@ -21,6 +21,11 @@ def generate_all():
     except rust_abi.TranslateError as ex:
         errs.append('server_dispatch: %s' % ex)
     try:
+        import server_async_dispatch
+        write_if_changed(os.path.join(COQ, 'Gen/RustAsyncDispatch.v'), server_async_dispatch.emit_coq(server_async_dispatch.translate(REPO)))
+    except rust_abi.TranslateError as ex:
+        errs.append('server_async_dispatch: %s' % ex)
+    try:
         import bytes_delegation
         bytes_delegation.generate(REPO)
     except Exception as ex:
